@@ -746,3 +746,70 @@ def strlen_rule(run, R="TAB-op"):
     ok = bool(pays) and all("to_bigint(" in p_ and "utf8_contents" not in p_ for p_ in pays)
     run.check(ok, R, R + "|strlen|encoded-bytes", g.loc(), "strlen answers from the encoded value of the string (%d answer(s))" % len(pays),
               "strlen's answer (%s) is not computed from the encoded value of the string: `strlen(utf16be(\"€\"))` answers 3, the length of the UTF-8 spelling, although the value holds 2 bytes" % [p_[:100] for p_ in pays])
+
+
+def lazy_operands_typed(run, R="TAB-op"):
+    """`||` and `&&` take booleans on both sides: in the branch of the evaluator that handles the two lazy operators, the value of
+    the left operand is tested for being a boolean (anything else is reported and fails) before the right operand is evaluated,
+    and the value of the right operand is tested the same way.  A left operand of another type is an ill-typed operation, not
+    `not settled yet`"""
+    from rules_idx import promoted_variant
+    from rules_sym import report_error_in_region
+    from rules_tab import err_return_in_region
+    from rules_fix import reach_from
+    fs = [f for f in run.prog.real_fns() if f.kind != "Closure" and f.id.endswith("Expr>::eval_with_ctx")]
+    if len(fs) != 1:
+        run.violation(R, R + "|lazy|operands-typed", "-", "mechanism not found: Expr::eval_with_ctx")
+        return
+    f = fs[0]
+    # the branch: behind a comparison of the operator with LazyOr / LazyAnd
+    entry = None
+    entries = []
+    for bi, t in f.calls():
+        if (t.get("callee") or "").endswith("PartialEq::eq") and any(promoted_variant(run.prog, f, a) in ("LazyOr", "LazyAnd") for a in t["args"]):
+            bt = T.bool_test(f, t)
+            if bt:
+                entry = bt[0] if entry is None else entry
+                entries.append(bt[0])
+    if entry is None:
+        run.violation(R, R + "|lazy|operands-typed", f.loc(), "mechanism not found: the branch of the evaluator for `||` and `&&`")
+        return
+    region = None
+    for e_ in entries:
+        region = reach_from(f, e_) if region is None else (region & reach_from(f, e_))
+    evals = [(bi, t) for bi, t in f.calls() if bi in region and (t.get("resolved") or "") == f.id and t.get("target") is not None]
+    # the left operand's evaluation dominates the right operand's
+    evals.sort(key=lambda e: sum(1 for o in evals if f.dominates(o[0], e[0])))
+    ok, why = len(evals) >= 2, "the two operand evaluations were not found"
+    if ok:
+        (b1, t1), (b2, t2) = evals[0], evals[1]
+        tests = []
+        for b in sorted(region):
+            tt = f.blocks[b]["term"]
+            if tt["k"] != "switch" or op_local(tt["discr"]) is None:
+                continue
+            o = f.origin_local(op_local(tt["discr"]))
+            if not (o and o[0] == "discr" and "Bool" in (o[2].get("variants") or {}).values() and (o[2].get("adt") or "").endswith("Value")):
+                continue
+            vs = o[2]["variants"]
+            other = [e for e in f.succs(b) if e not in [tg for v, tg in tt["targets"] if vs.get(v) == "Bool"]]
+            def error_only(e):
+                reg, work = set(), [e]
+                while work:
+                    x = work.pop()
+                    if x in reg:
+                        continue
+                    reg.add(x)
+                    work.extend(f.succs(x))
+                has_ok = any(st["k"] == "assign" and st["place"]["l"] == 0 and not st["place"]["p"] and st["rv"]["k"] == "agg" and st["rv"].get("variant") == "Ok"
+                             for x in reg for st in f.blocks[x]["stmts"])
+                calls_eval = any((f.blocks[x]["term"].get("resolved") or "") == f.id for x in reg if f.blocks[x]["term"]["k"] == "call")
+                return (not has_ok) and (not calls_eval) and report_error_in_region(f, reg) and err_return_in_region(f, reg)
+            if any(error_only(e) for e in other):
+                tests.append(b)
+        left = [b for b in tests if f.dominates(t1["target"], b) and not f.dominates(t2["target"], b) and b2 in reach_from(f, b)]
+        right = [b for b in tests if f.dominates(t2["target"], b)]
+        ok = bool(left) and bool(right)
+        why = "the value of the %s operand is not tested for being a boolean (with an error for any other type)%s" % ("left" if not left else "right", " before the right operand is evaluated" if not left else "")
+    run.check(ok, R, R + "|lazy|operands-typed", f.loc(), "both operands of `||` / `&&` are tested for being booleans; the left one before the right one is evaluated",
+              "eval_with_ctx, lazy operators: %s: `5 || true` or `\"x\" && false` evaluate to the right operand instead of failing with `invalid argument type to operator`" % why)
